@@ -20,6 +20,13 @@ REQUIRED_MONITORS = ["refused-unchanged"]
 
 
 def run(ctx):
+    import os
+    import warnings
+    if ctx.shard % 4 == 2 or os.environ.get("VERIF_WARNINGS") == "error":
+        # one more environment: warnings raised as exceptions (python -W error, pytest filterwarnings=error); a call that
+        # ends in such an exception is a raising call like any other and must not have changed anything
+        warnings.simplefilter("error")
+        ctx.rec.count("worker-environments", "warnings-as-errors")
     struct_common.run_struct(ctx, PROPERTY, ctx.pick(1500, 150000), failing=0.6, value_heavy=True)
 
 
